@@ -14,7 +14,7 @@ use simcore::{drive, Drive, Sim};
 
 fn wire_entries(sim: &Sim, md: &[MdEntry]) -> Vec<(String, Vec<u8>)> {
     md.iter()
-        .filter(|e| !e.reserved)
+        .filter(|e| e.expected())
         .map(|e| {
             if e.bin {
                 let pad = sim.chance(1, 2);
